@@ -93,9 +93,19 @@ def _prim_value(f, env, pick, rng, optional):
     raise ValueError(p)
 
 
-def assignment(fields, rng, mode, n_optional=None):
-    """One Fits assignment.  mode: 'zero' | 'max' | 'alt0' | 'alt1' | 'top' | 'random' | 'boundary'."""
+def assignment(fields, rng, mode, n_optional=None, override=None):
+    """One Fits assignment.  mode: 'zero' | 'max' | 'alt0' | 'alt1' | 'top' | 'random' | 'boundary'.
+    override: {field index: wire byte pattern (bytes, little-endian for integers) or callable(n) -> bytes} - the
+    value of that field when it is on the wire (optional present / condition true), see `value_of_wire`."""
     counter = [0]
+    override = override or {}
+
+    def prim_value(i, f, optional):
+        if i in override:
+            v = value_of_wire(f, env, override[i])
+            if v is not None:
+                return v
+        return _prim_value(f, env, pick, rng, optional)
 
     def pick(bits):
         counter[0] += 1
@@ -120,21 +130,140 @@ def assignment(fields, rng, mode, n_optional=None):
     if n_optional is None:
         n_optional = rng.randrange(n_opt_fields + 1)
     env, seen_opt = [], 0
-    for f in fields:
+    for i, f in enumerate(fields):
         if f.wrap == 'optional':
             seen_opt += 1
             if seen_opt > n_optional:
                 env.append(('none',))
                 continue
-            env.append(_prim_value(f, env, pick, rng, True))
+            env.append(prim_value(i, f, True))
         elif f.wrap == 'cond':
             if eval_cond(f.cond, env):
-                env.append(_prim_value(f, env, pick, rng, False))
+                env.append(prim_value(i, f, False))
             else:
                 env.append(canon_dflt(f.dflt))
         else:
-            env.append(_prim_value(f, env, pick, rng, False))
+            env.append(prim_value(i, f, False))
     return env
+
+
+# ---- the wire format written down from the LAYOUT (independent of the library's encoder) ------------
+
+def wire_len(f, env):
+    """Number of wire bytes of primitive f.prim (None: free, `remaining`)."""
+    p = f.prim
+    if p[0] == 'cc':
+        return 1
+    if p[0] in ('uint', 'bytes', 'str', 'bits'):
+        return int(p[1])
+    if p[0] == 'varBytes':
+        v = env[p[1]]
+        return int(v[1]) if v[0] == 'int' else 0
+    return None
+
+
+def value_of_wire(f, env, pattern):
+    """The canonical value whose wire image is `pattern` (bytes, or callable(n) -> n bytes); None when the
+    primitive cannot carry it (completion code, zero length)."""
+    p = f.prim
+    if p[0] == 'cc':
+        return None
+    n = wire_len(f, env)
+    raw = pattern(n if n is not None else 4) if callable(pattern) else bytes(pattern)
+    if n is not None and len(raw) != n:
+        return None
+    if p[0] == 'uint':
+        return ('int', int.from_bytes(raw, 'little'))
+    if p[0] == 'bits':
+        v, out, off = int.from_bytes(raw, 'little'), [], 0
+        for w in p[2]:
+            out.append((v >> off) & ((1 << w) - 1))
+            off += w
+        return ('bits', out)
+    if not raw and p[0] == 'remaining':
+        return None
+    return ('arr', raw)
+
+
+def encode_layout(fields, vals):
+    """Wire bytes of an assignment from the layout alone: fields in declared order, integers little-endian,
+    bit members packed LSB first in declared order, arrays as they are; an absent optional and a conditional
+    whose predicate is false contribute nothing."""
+    out = bytearray()
+    for i, (f, v) in enumerate(zip(fields, vals)):
+        if f.wrap == 'optional' and v[0] == 'none':
+            continue
+        if f.wrap == 'cond' and not eval_cond(f.cond, vals[:i]):
+            continue
+        p = f.prim
+        if p[0] == 'cc':
+            out.append(v[1] & 0xff)
+        elif p[0] == 'uint':
+            out += int(v[1]).to_bytes(p[1], 'little')
+        elif p[0] == 'bits':
+            x, off = 0, 0
+            for w, b in zip(p[2], v[1]):
+                x |= (b & ((1 << w) - 1)) << off
+                off += w
+            out += x.to_bytes(p[1], 'little')
+        else:
+            out += bytes(v[1])
+    return bytes(out)
+
+
+def boundary_patterns(n):
+    """Wire images of an n-byte field at its boundaries: 00.., FF.., 80 00.., 00..80, 7F FF.., FF..7F, 01 00..,
+    00..01, FE FF.. and FF..FE (little- and big-endian reading of top bit / largest positive / one / largest-1)."""
+    if n <= 0:
+        return []
+    z, o = b'\x00' * (n - 1), b'\xff' * (n - 1)
+    pats = [b'\x00' * n, b'\xff' * n, b'\x80' + z, z + b'\x80', b'\x7f' + o, o + b'\x7f', b'\x01' + z, z + b'\x01',
+            b'\xfe' + o, o + b'\xfe']
+    seen, out = set(), []
+    for q in pats:
+        if q not in seen:
+            seen.add(q)
+            out.append(q)
+    return out
+
+
+def boundary_encodings(fields, rng):
+    """[(label, vals, wire bytes)]: for every field of the layout and every boundary pattern of its width, a VALID
+    encoding (completion code 00h) in which that field carries the pattern - with every optional tail present
+    and, if the field is itself optional, also with it as the last one present - the other fields all-zero and
+    all-ones.  Built with `encode_layout`, never with the library's encoder: a defect that needs one exact value
+    (all-ones in an optional 4-byte field has chance 2^-32 in a random string) is reached by construction."""
+    n_opt = sum(1 for f in fields if f.wrap == 'optional')
+    out, seen = [], set()
+    opt_no = 0
+    for i, f in enumerate(fields):
+        if f.wrap == 'optional':
+            opt_no += 1
+        if f.prim[0] == 'cc':
+            continue
+        ks = [n_opt] if f.wrap != 'optional' or opt_no == n_opt else [n_opt, opt_no]
+        if f.prim[0] == 'remaining':
+            widths = [1, 2, 4, 16]
+        elif f.prim[0] == 'varBytes':
+            widths = [None]
+        else:
+            widths = [int(f.prim[1])]
+        for base in ('zero', 'max'):
+            for k in ks:
+                for w in widths:
+                    if w is None:
+                        probe = assignment(fields, rng, base, k)
+                        w = wire_len(f, probe[:i]) if len(probe) > i else 0
+                    for pat in boundary_patterns(w or 0):
+                        vals = assignment(fields, rng, base, k, override={i: pat})
+                        if f.prim[0] != 'remaining' and value_of_wire(f, vals[:i], pat) != vals[i]:
+                            continue        # not on the wire in this assignment (condition false)
+                        data = encode_layout(fields, vals)
+                        if data in seen:
+                            continue
+                        seen.add(data)
+                        out.append(('%s=%s/%s/opt%d' % (f.name, lean.hexs(pat), base, k), vals, data))
+    return out
 
 
 def encode_real(cls, fields, vals):
@@ -165,3 +294,59 @@ PY_TAG = {'DecodingError': 'DecodingError', 'EncodingError': 'EncodingError'}
 def model_tag(name):
     """Map a Python exception class name to the driver's tag."""
     return PY_TAG.get(name, 'py:' + name)
+
+
+# ---- the layouts when the translator fails closed --------------------------------------------------
+
+def structural_snapshot():
+    """registry.snapshot() for a tree on which the translator raises TieBroken (a field class left its
+    vocabulary / overrides encode, decode or create): the LAYOUT of such a field is still what its base class
+    and declared length say, only its behaviour is no longer the modelled one.  The real code is then judged on
+    inputs built from that layout (no model comparison: the caller must not ask the driver about these classes).
+    A class whose layout cannot be read at all is returned as malformed (skipped by the callers).
+    Returns (snapshot, [reasons])."""
+    from .translate import registry as R
+    from .lib.lean import TieBroken
+    reasons = []
+    orig_prim, orig_fields = R._prim, R.class_fields
+
+    def prim(M, f, names, bitnames):
+        try:
+            return orig_prim(M, f, names, bitnames)
+        except TieBroken as e:
+            reasons.append(str(e))
+            if isinstance(f, M.CompletionCode):
+                return ('cc',), ('int', 0)
+            if isinstance(f, M.UnsignedInt) and isinstance(f.length, int):
+                return ('uint', int(f.length)), ('int', 0 if f.default is None else int(f.default))
+            if isinstance(f, M.RemainingBytes):
+                return ('remaining',), ('arr', [])
+            if isinstance(f, M.String) and isinstance(f.length, int):
+                return ('str', int(f.length)), ('arr', [])
+            if isinstance(f, M.Bitfield):
+                ws = [int(b._width) for b in f._bits]
+                ds = [0 if b.default is None else int(b.default) for b in f._bits]
+                return ('bits', int(f.length), ws, [b.name for b in f._bits], ds), ('bits', ds)
+            if isinstance(f, M.ByteArray) and isinstance(f.length, int):
+                return ('bytes', int(f.length)), ('arr', [0] * f.length)
+            raise
+
+    def class_fields(cls):
+        try:
+            return orig_fields(cls)
+        except TieBroken as e:
+            reasons.append('%s: %s' % (cls.__name__, e))
+            raise ValueError(mark + str(e))
+
+    mark = 'malformed: layout outside the translator grammar: '
+    R._prim, R.class_fields = prim, class_fields
+    try:
+        snap = R.snapshot()
+    finally:
+        R._prim, R.class_fields = orig_prim, orig_fields
+    for _cls, info in snap:
+        if info['malformed'] and info['malformed'].startswith(mark):
+            # not a construction failure of the class: only unreadable for us -> no cases for it
+            info['untranslatable'] = info['malformed'][len(mark):]
+            info['malformed'], info['fields'] = None, []
+    return snap, sorted(set(reasons))
